@@ -666,7 +666,7 @@ func (e *Enc) heapSortOf(name string) string {
 		return s
 	}
 	switch name {
-	case "alloc", "calls":
+	case "alloc", "calls", "alloc0":
 		return "Int"
 	}
 	panic("unknown heap " + name)
